@@ -9,11 +9,13 @@ package control
 // Op grammar: see lean/DaeVerif/C13/Main.lean (handleTrk / handleDrn / handleKey).
 
 import (
+	"bytes"
 	"context"
 	"encoding/hex"
 	"fmt"
 	"io"
 	"math/big"
+	"net"
 	"net/netip"
 	"sort"
 	"strings"
@@ -23,7 +25,9 @@ import (
 	"unsafe"
 
 	"github.com/cilium/ebpf"
+	"github.com/daeuniverse/outbound/pool"
 	"github.com/sirupsen/logrus"
+	"golang.org/x/net/ipv6"
 )
 
 // ---------------------------------------------------------------- tracker
@@ -55,7 +59,7 @@ func (x *c13Trk) digest(idx map[bpfTuplesKey]int) string {
 	var es []string
 	type ent struct {
 		k, refs int
-		del  bool
+		del     bool
 	}
 	var l []ent
 	for k, e := range x.t.entries {
@@ -453,6 +457,137 @@ func c13RunKrn(t *testing.T, stats *VStats) {
 		}
 	}
 	stats.Add("krn.ops", s.N)
+}
+
+// ---------------------------------------------------------------- ingress batch reader
+//
+// Stream c13_ib: the REAL udpIngressBatchReader (ReadBatch / Take / Close) over a fake batch socket.
+// Taken buffers are kept by the harness like queued packet tasks keep them; after every ReadBatch the
+// harness checks that none of them was overwritten and that a newly taken buffer is not one of them.
+
+type c13IbSock struct {
+	next [][]byte
+	src  []*net.UDPAddr
+}
+
+func (f *c13IbSock) ReadBatch(msgs []ipv6.Message, _ int) (int, error) {
+	n := len(f.next)
+	if n > len(msgs) {
+		n = len(msgs)
+	}
+	for i := 0; i < n; i++ {
+		msgs[i].N = copy(msgs[i].Buffers[0], f.next[i])
+		msgs[i].Addr = f.src[i]
+		msgs[i].NN = 0
+	}
+	return n, nil
+}
+
+func c13RunIb(t *testing.T, stats *VStats) {
+	s := VOpenStream("c13_ib")
+	defer s.Close()
+	r := NewVRand(VSeed() + 808)
+	nseq := 100
+	if VThorough() {
+		nseq = 2000
+	}
+	type held struct {
+		pb   pool.PB
+		want []byte
+	}
+	for seq := 0; seq < nseq; seq++ {
+		size := 1 + r.Intn(8)
+		sock := &c13IbSock{}
+		var rd *udpIngressBatchReader
+		if conn, err := net.ListenUDP("udp", &net.UDPAddr{IP: net.IPv4(127, 0, 0, 1)}); err == nil {
+			rd = newUDPIngressBatchReader(conn, size) // the real constructor; only the socket is replaced
+			conn.Close()
+		}
+		if rd == nil {
+			stats.Inc("ib.noSocket")
+			return
+		}
+		rd.pc = sock
+		s.Emit(fmt.Sprintf("ib reset %d", size), "ok")
+		var hold []held
+		got := 0
+		serial := byte(1)
+		for i, nops := 0, 4+r.Intn(30); i < nops; i++ {
+			switch x := r.Intn(10); {
+			case x < 4:
+				n := r.Intn(size + 2)
+				sock.next, sock.src = nil, nil
+				var toks []string
+				for j := 0; j < n; j++ {
+					l := 1 + r.Intn(4)
+					b := make([]byte, l)
+					var bs []int
+					for q := range b {
+						b[q] = serial
+						bs = append(bs, int(serial))
+						serial++
+						if serial == 0 {
+							serial = 1
+						}
+					}
+					sock.next = append(sock.next, b)
+					sock.src = append(sock.src, &net.UDPAddr{IP: net.IPv4(10, 0, 0, byte(j+1)), Port: 4000 + j})
+					toks = append(toks, c13JoinInts(bs))
+				}
+				var err error
+				got, err = rd.ReadBatch()
+				if err != nil {
+					t.Fatalf("c13: ReadBatch: %v", err)
+				}
+				stats.Inc("ib.read")
+				s.Emit(strings.TrimSpace("ib read "+strings.Join(toks, " ")), fmt.Sprintf("n=%d", got))
+			case x < 8:
+				i := r.Intn(size + 1)
+				if i >= got && i < size {
+					continue // a slot without a datagram: production never takes it
+				}
+				pb, src, _, ok := rd.Take(i)
+				out := "none"
+				if ok {
+					var bs []int
+					for _, v := range pb {
+						bs = append(bs, int(v))
+					}
+					alias, heldOK := 0, 1
+					for _, h := range hold {
+						if &h.pb[:1][0] == &pb[:1][0] {
+							alias = 1
+						}
+						if !bytes.Equal(h.pb, h.want) {
+							heldOK = 0
+						}
+					}
+					out = fmt.Sprintf("ok data=%s alias=%d held_ok=%d", c13JoinInts(bs), alias, heldOK)
+					if src.Port() != uint16(4000+i) {
+						out += " src=wrong"
+					}
+					hold = append(hold, held{pb: pb, want: append([]byte(nil), pb...)})
+					stats.Inc("ib.take")
+				} else {
+					stats.Inc("ib.take.none")
+				}
+				s.Emit(fmt.Sprintf("ib take %d", i), out)
+			default:
+				// a queued task finishes: its buffer goes back to the pool
+				if len(hold) > 0 {
+					j := r.Intn(len(hold))
+					hold[j].pb.Put()
+					hold = append(hold[:j], hold[j+1:]...)
+					stats.Inc("ib.taskDone")
+				}
+			}
+		}
+		rd.Close()
+		for _, h := range hold {
+			h.pb.Put()
+		}
+	}
+	stats.Add("ib.ops", s.N)
 }
 
 // ---------------------------------------------------------------- drain tickets
